@@ -5,10 +5,11 @@ from harness.common.rng import Rng
 from harness.common import sim, usbref
 
 PROP = "C33"
-LEAN_MODULES = ["LunaVerif.Props.C33"]
+LEAN_MODULES = ["LunaVerif.Props.C33", "LunaVerif.Lemmas.C33Fairness"]
 DRIVER = "Driver/C33.lean"
 REQUIRED_THEOREMS = ["tx_stream_is_input_with_idle_replaced", "scrambler_hold_iff_skp_word",
-                     "skp_debt_accounting", "debt_counter_overflow_boundary", "link_layer_idle_mux_guarantees_env"]
+                     "skp_debt_accounting", "debt_counter_overflow_boundary", "link_layer_idle_mux_guarantees_env",
+                     "ctc_bounded_fairness", "ctc_bounded_fairness_bucket"]
 RULE = ("cases = DUT (CTCSkipInserter co-simulated against the Lean model; tx half of USB3PhysicalLayer with a "
         "PIPEInterface, monitor only) x traffic mode x seed; traffic = link-layer grammar: bursts (link commands, "
         "header packets, data packets up to 1056 bytes, training sets with COM, random words incl. all-zero words "
@@ -20,15 +21,22 @@ ASSUMPTIONS = ["can_send_skip = 1 only in cycles in which the word offered on th
                "(valid, data 0, ctrl 0): link/layer.py drives physical_layer.sink with IDL and can_send_skp = 1 in "
                "the same `If(arbiter.idle)` block and nowhere else (theorem link_layer_idle_mux_guarantees_env "
                "on a model of that mux; re-checked on the source text on every run)",
-               "skp_debt_accounting: the 3-bit debt counter does not wrap during the stretch considered "
-               "(hypothesis NoWrap: skips_to_send < 7 whenever it is incremented); the boundary is stated by "
-               "debt_counter_overflow_boundary",
+               "skp_debt_accounting (from any legal state): the 3-bit debt counter does not wrap during the stretch "
+               "considered (hypothesis NoWrap: skips_to_send < 7 whenever it is incremented); the boundary is "
+               "stated by debt_counter_overflow_boundary",
+               "ctc_bounded_fairness (from reset, NoWrap derived): the link layer raises can_send_skip at least once "
+               "in every W valid words offered, 1 <= W <= 177 (IdleEvery W; one SKP word = 708 bytes = 177 words is "
+               "all a single opportunity can pay for); ctc_bounded_fairness_bucket: the weaker leaky-bucket form, "
+               "a counter +1 per valid word offered without permission and -176 (floored at 0) per cycle with "
+               "can_send_skip = 1 never exceeds K <= 530 (covers maximum-size packets followed by a few idle words)",
                "words carry 4 symbols"]
-PARTIAL = ("'often enough' is proved as the exact accounting identity 4*transfers = 354*(debt + 2*SKP words) + "
-           "remainder under NoWrap plus immediate insertion whenever can_send_skip and debt >= 2; no unconditional "
-           "bound on the debt is claimed (the link layer offers no idle during training-set transmission, where "
-           "the counter wraps as coded). The scrambler itself is C31; here only hold = sending_skip is covered "
-           "(by the physical-layer monitor with a reference LFSR).")
+PARTIAL = ("'often enough' is proved as bounded fairness: with an idle opportunity in every W <= 177 valid words (or "
+           "the leaky-bucket condition, K <= 530) the debt never wraps, stays <= (707+4W)/354 <= 3 sets and "
+           "floor(n/354) - B <= SKP sets sent <= floor(n/354) for every stream from reset. Not covered: that the "
+           "link layer's arbiter actually meets that condition (it offers no idle during training-set "
+           "transmission, where the counter wraps as coded; link-layer traffic shaping is outside this property's "
+           "modules). The scrambler itself is C31; here only hold = sending_skip is covered (by the "
+           "physical-layer monitor with a reference LFSR).")
 
 SKPW = (0x3C3C3C3C, 0xF)
 LIMIT = 354
